@@ -336,33 +336,32 @@ Definition rxso3_item (atol : R) (m : @matin R) : option rxso3R :=
   obindo (sc_item m) (fun s => option_map (fun q : quatR => (q, s)) (so3_item atol (div_item m))).
 Definition rank_small (rtol atol : R) (s : option R) : bool := lift (fun v => close rtol atol v 0) s.
 
-Lemma scale_stage_pass rtol atol B Ms :
-  broadcastable (B ++ [1%nat]) B = true -> (exists m, In m Ms /\ rank_small rtol atol (sc_item m) = false) ->
-  scale_stage rtol atol B Ms = Value (map sc_item Ms).
+Lemma scale_stage_pass rtol atol Ms :
+  (exists m, In m Ms /\ rank_small rtol atol (sc_item m) = false) ->
+  scale_stage rtol atol Ms = Value (map sc_item Ms).
 Proof.
-  intros HB [m [Hm Hs]]. unfold scale_stage. rewrite HB. cbn [negb].
+  intros [m [Hm Hs]]. unfold scale_stage.
   assert (E : forallb (lift (fun v => close rtol atol v zero)) (map (fun m => cbrt (mdet3 (in_rot m))) Ms) = false).
   { apply forallb_false_ex. exists (sc_item m). split; [apply in_map_iff; exists m; auto | exact Hs]. }
-  rewrite E. reflexivity.
+  rewrite E, andb_false_r. reflexivity.
 Qed.
-(* the defect: the rank test compares shapes B+(1,) and B *)
-Lemma scale_stage_shape rtol atol B Ms :
-  broadcastable (B ++ [1%nat]) B = false -> scale_stage rtol atol B Ms = Raises RuntimeError.
-Proof. intros HB. unfold scale_stage. rewrite HB. reflexivity. Qed.
-Lemma scale_stage_allsmall rtol atol B Ms :
-  broadcastable (B ++ [1%nat]) B = true -> (forall m, In m Ms -> rank_small rtol atol (sc_item m) = true) ->
-  scale_stage rtol atol B Ms = Raises (ValueError E_rank).
+(* an empty batch returns (s.numel() > 0 guards the test) *)
+Lemma scale_stage_empty rtol atol : scale_stage rtol atol [] = Value [].
+Proof. reflexivity. Qed.
+Lemma scale_stage_allsmall rtol atol Ms :
+  Ms <> [] -> (forall m, In m Ms -> rank_small rtol atol (sc_item m) = true) ->
+  scale_stage rtol atol Ms = Raises (ValueError E_rank).
 Proof.
-  intros HB H. unfold scale_stage. rewrite HB. cbn [negb].
+  intros Hne H. unfold scale_stage.
   assert (E : forallb (lift (fun v => close rtol atol v zero)) (map (fun m => cbrt (mdet3 (in_rot m))) Ms) = true).
   { apply forallb_map_true. exact H. }
-  rewrite E. reflexivity.
+  rewrite E. destruct Ms as [|m0 Ms']; [contradiction | reflexivity].
 Qed.
 
-Lemma mat2Sim3_pass rtol atol check B Ms :
-  scale_stage rtol atol B Ms = Value (map sc_item Ms) ->
+Lemma mat2Sim3_pass rtol atol check Ms :
+  scale_stage rtol atol Ms = Value (map sc_item Ms) ->
   (forall m, In m Ms -> lift (orth_ok rtol atol) (div_item m) = true /\ lift (det_ok rtol atol) (div_item m) = true) ->
-  mat2Sim3 rtol atol check B Ms = Value (map (sim3_item atol) Ms).
+  mat2Sim3 rtol atol check Ms = Value (map (sim3_item atol) Ms).
 Proof.
   intros Hs H. unfold mat2Sim3. rewrite Hs. cbn [obind].
   rewrite combine_self_map, map_map. cbn [fst snd].
@@ -371,10 +370,10 @@ Proof.
   - cbn [omap]. rewrite map_map, combine_map_same, map_map. reflexivity.
   - intros M HM. apply in_map_iff in HM. destruct HM as [m [<- Hm]]. auto.
 Qed.
-Lemma mat2RxSO3_pass rtol atol check B Ms :
-  scale_stage rtol atol B Ms = Value (map sc_item Ms) ->
+Lemma mat2RxSO3_pass rtol atol check Ms :
+  scale_stage rtol atol Ms = Value (map sc_item Ms) ->
   (forall m, In m Ms -> lift (orth_ok rtol atol) (div_item m) = true /\ lift (det_ok rtol atol) (div_item m) = true) ->
-  mat2RxSO3 rtol atol check B Ms = Value (map (rxso3_item atol) Ms).
+  mat2RxSO3 rtol atol check Ms = Value (map (rxso3_item atol) Ms).
 Proof.
   intros Hs H. unfold mat2RxSO3. rewrite Hs. cbn [obind].
   rewrite combine_self_map, map_map. cbn [fst snd].
@@ -383,12 +382,24 @@ Proof.
   - cbn [omap]. rewrite map_map, combine_map_same, map_map. reflexivity.
   - intros M HM. apply in_map_iff in HM. destruct HM as [m [<- Hm]]. auto.
 Qed.
-Lemma mat2Sim3_shape rtol atol check B Ms :
-  broadcastable (B ++ [1%nat]) B = false -> mat2Sim3 rtol atol check B Ms = Raises RuntimeError.
-Proof. intros HB. unfold mat2Sim3. rewrite scale_stage_shape by assumption. reflexivity. Qed.
-Lemma mat2RxSO3_shape rtol atol check B Ms :
-  broadcastable (B ++ [1%nat]) B = false -> mat2RxSO3 rtol atol check B Ms = Raises RuntimeError.
-Proof. intros HB. unfold mat2RxSO3. rewrite scale_stage_shape by assumption. reflexivity. Qed.
+(* history: before 988caf7 the rank test compared shapes B+(1,) and B *)
+Lemma scale_stage_old_shape rtol atol B Ms :
+  broadcastable (B ++ [1%nat]) B = false -> scale_stage_old rtol atol B Ms = Raises RuntimeError.
+Proof. intros HB. unfold scale_stage_old. rewrite HB. reflexivity. Qed.
+Lemma mat2Sim3_old_shape rtol atol check B Ms :
+  broadcastable (B ++ [1%nat]) B = false -> mat2Sim3_old rtol atol check B Ms = Raises RuntimeError.
+Proof. intros HB. unfold mat2Sim3_old. rewrite scale_stage_old_shape by assumption. reflexivity. Qed.
+Lemma mat2RxSO3_old_shape rtol atol check B Ms :
+  broadcastable (B ++ [1%nat]) B = false -> mat2RxSO3_old rtol atol check B Ms = Raises RuntimeError.
+Proof. intros HB. unfold mat2RxSO3_old. rewrite scale_stage_old_shape by assumption. reflexivity. Qed.
+(* the repaired functions are the old ones wherever the old rank test was well-formed and the batch
+   is not empty *)
+Lemma scale_stage_old_agrees rtol atol B Ms :
+  broadcastable (B ++ [1%nat]) B = true -> Ms <> [] -> scale_stage_old rtol atol B Ms = scale_stage rtol atol Ms.
+Proof.
+  intros HB Hne. unfold scale_stage_old, scale_stage. rewrite HB. cbn [negb].
+  destruct Ms as [|m0 Ms']; [contradiction|]. reflexivity.
+Qed.
 
 (* items built from a valid scaled rotation *)
 Lemma sc_item_scaled l s q t : 0 < s -> unitq q ->
@@ -415,15 +426,17 @@ Definition sim3_rt (l : layout) (X : sim3R) (o : option sim3R) : Prop :=
 Definition rxso3_rt (X : rxso3R) (o : option rxso3R) : Prop :=
   exists q', o = Some (q', snd X) /\ qsame (fst X) q'.
 
-Theorem mat2Sim3_roundtrip rtol atol check l B (Xs : list sim3R) :
+Theorem mat2Sim3_roundtrip rtol atol check l (Xs : list sim3R) :
   0 <= rtol -> 0 <= atol < 1 -> Forall valid_Sim3 Xs ->
-  broadcastable (B ++ [1%nat]) B = true -> (exists X, In X Xs /\ atol < snd (snd X)) ->
-  exists out, mat2Sim3 rtol atol check B (map (fun X => lay_in l (matrix4 Sim3_act4 X)) Xs) = Value out /\
+  (Xs = [] \/ exists X, In X Xs /\ atol < snd (snd X)) ->
+  exists out, mat2Sim3 rtol atol check (map (fun X => lay_in l (matrix4 Sim3_act4 X)) Xs) = Value out /\
               Forall2 (sim3_rt l) Xs out.
 Proof.
-  intros Hr [Ha0 Ha1] HX HB [X0 [HX0 Hs0]]. rewrite Forall_forall in HX. eexists. split.
+  intros Hr [Ha0 Ha1] HX [-> | [X0 [HX0 Hs0]]].
+  { exists []. split; [destruct check; reflexivity | constructor]. }
+  rewrite Forall_forall in HX. eexists. split.
   - apply mat2Sim3_pass.
-    + apply scale_stage_pass; [assumption|].
+    + apply scale_stage_pass.
       exists (lay_in l (matrix4 Sim3_act4 X0)). split; [apply in_map_iff; exists X0; auto|].
       destruct (HX X0 HX0) as [Hu Hs]. rewrite Sim3_matrix_blocks, sc_item_scaled by assumption.
       now apply rank_small_false.
@@ -436,15 +449,17 @@ Proof.
     cbn [obindo]. destruct (so3_item_roundtrip atol (fst (snd X))) as [q' [E Hq]]; [lra | assumption|].
     exists q'. rewrite E. split; [reflexivity | exact Hq].
 Qed.
-Theorem mat2RxSO3_roundtrip rtol atol check l B (Xs : list rxso3R) :
+Theorem mat2RxSO3_roundtrip rtol atol check l (Xs : list rxso3R) :
   0 <= rtol -> 0 <= atol < 1 -> Forall valid_RxSO3 Xs ->
-  broadcastable (B ++ [1%nat]) B = true -> (exists X, In X Xs /\ atol < snd X) ->
-  exists out, mat2RxSO3 rtol atol check B (map (fun X => lay_in l (matrix4 RxSO3_act4 X)) Xs) = Value out /\
+  (Xs = [] \/ exists X, In X Xs /\ atol < snd X) ->
+  exists out, mat2RxSO3 rtol atol check (map (fun X => lay_in l (matrix4 RxSO3_act4 X)) Xs) = Value out /\
               Forall2 rxso3_rt Xs out.
 Proof.
-  intros Hr [Ha0 Ha1] HX HB [X0 [HX0 Hs0]]. rewrite Forall_forall in HX. eexists. split.
+  intros Hr [Ha0 Ha1] HX [-> | [X0 [HX0 Hs0]]].
+  { exists []. split; [destruct check; reflexivity | constructor]. }
+  rewrite Forall_forall in HX. eexists. split.
   - apply mat2RxSO3_pass.
-    + apply scale_stage_pass; [assumption|].
+    + apply scale_stage_pass.
       exists (lay_in l (matrix4 RxSO3_act4 X0)). split; [apply in_map_iff; exists X0; auto|].
       destruct (HX X0 HX0) as [Hu Hs]. rewrite RxSO3_matrix4_blocks, sc_item_scaled by assumption.
       now apply rank_small_false.
@@ -458,32 +473,38 @@ Proof.
     exists q'. rewrite E. split; [reflexivity | exact Hq].
 Qed.
 
-(* the batch-shape clause fails on the faithful model: lshape (2,3) *)
-Theorem mat2Sim3_batch_shape_refuted rtol atol check l :
+(* history (before 988caf7): the batch-shape clause failed on the faithful model of the old code, lshape (2,3) *)
+Theorem mat2Sim3_old_batch_shape_refuted rtol atol check l :
   exists (B : list nat) (Xs : list sim3R),
     length Xs = fold_right Nat.mul 1%nat B /\ Forall valid_Sim3 Xs /\ (forall X, In X Xs -> snd (snd X) = 2) /\
-    mat2Sim3 rtol atol check B (map (fun X => lay_in l (matrix4 Sim3_act4 X)) Xs) = Raises RuntimeError.
+    mat2Sim3_old rtol atol check B (map (fun X => lay_in l (matrix4 Sim3_act4 X)) Xs) = Raises RuntimeError.
 Proof.
   exists [2%nat; 3%nat], (repeat ((1, 2, 3), (((3/5, 0, 0), 4/5), 2)) 6).
   split; [reflexivity|]. split; [|split].
   - apply Forall_forall. intros X HX. apply repeat_spec in HX. subst X. apply valid_example.
   - intros X HX. apply repeat_spec in HX. subst X. reflexivity.
-  - apply mat2Sim3_shape. reflexivity.
+  - apply mat2Sim3_old_shape. reflexivity.
 Qed.
-Theorem mat2RxSO3_batch_shape_refuted rtol atol check l :
+Theorem mat2RxSO3_old_batch_shape_refuted rtol atol check l :
   exists (B : list nat) (Xs : list rxso3R),
     length Xs = fold_right Nat.mul 1%nat B /\ Forall valid_RxSO3 Xs /\ (forall X, In X Xs -> snd X = 2) /\
-    mat2RxSO3 rtol atol check B (map (fun X => lay_in l (matrix4 RxSO3_act4 X)) Xs) = Raises RuntimeError.
+    mat2RxSO3_old rtol atol check B (map (fun X => lay_in l (matrix4 RxSO3_act4 X)) Xs) = Raises RuntimeError.
 Proof.
   exists [2%nat; 3%nat], (repeat (((3/5, 0, 0), 4/5), 2) 6).
   split; [reflexivity|]. split; [|split].
   - apply Forall_forall. intros X HX. apply repeat_spec in HX. subst X. apply valid_example.
   - intros X HX. apply repeat_spec in HX. subst X. reflexivity.
-  - apply mat2RxSO3_shape. reflexivity.
+  - apply mat2RxSO3_old_shape. reflexivity.
 Qed.
-(* and an empty batch raises "not full rank" (allclose of two empty tensors is True) *)
-Lemma mat2Sim3_empty rtol atol check : mat2Sim3 rtol atol check [0%nat] [] = Raises (ValueError E_rank).
+(* and an empty batch raised "not full rank" (allclose of two empty tensors is True); it returns now *)
+Lemma mat2Sim3_old_empty rtol atol check : mat2Sim3_old rtol atol check [0%nat] [] = Raises (ValueError E_rank).
 Proof. reflexivity. Qed.
+Lemma mat2RxSO3_old_empty rtol atol check : mat2RxSO3_old rtol atol check [0%nat] [] = Raises (ValueError E_rank).
+Proof. reflexivity. Qed.
+Lemma mat2Sim3_empty rtol atol check : mat2Sim3 rtol atol check [] = Value [].
+Proof. destruct check; reflexivity. Qed.
+Lemma mat2RxSO3_empty rtol atol check : mat2RxSO3 rtol atol check [] = Value [].
+Proof. destruct check; reflexivity. Qed.
 
 (* ---------------- euler2SO3 = Rz(yaw) Ry(pitch) Rx(roll) *)
 Definition Rx (a : R) : @mat3 R := ((1, 0, 0), (0, cos a, - sin a), (0, sin a, cos a)).
@@ -690,8 +711,8 @@ Proof. destruct A as [[[[a b] c] [[d e] f]] [[g h] k]]. reflexivity. Qed.
 Lemma accepted_lay l : accepted (lay_rows l) (lay_cols l) = true.
 Proof. destruct l; reflexivity. Qed.
 
-Lemma from_matrix_rejects_shape rtol atol ltype check B rows cols (data : list (list R)) :
-  accepted rows cols = false -> from_matrix_l rtol atol ltype check B rows cols data = Raises (ValueError E_size).
+Lemma from_matrix_rejects_shape rtol atol ltype check rows cols (data : list (list R)) :
+  accepted rows cols = false -> from_matrix_l rtol atol ltype check rows cols data = Raises (ValueError E_size).
 Proof. intros H. unfold from_matrix_l. rewrite H. reflexivity. Qed.
 Lemma accepted_spec rows cols :
   accepted rows cols = true <-> (rows, cols) = (3, 3)%nat \/ (rows, cols) = (3, 4)%nat \/ (rows, cols) = (4, 4)%nat.
@@ -700,15 +721,15 @@ Proof.
   - intros [[[-> ->]|[-> ->]]|[-> ->]]; auto.
   - intros [H|[H|H]]; inversion H; auto.
 Qed.
-Lemma from_matrix_rejects_ltype rtol atol ltype check B rows cols (data : list (list R)) :
+Lemma from_matrix_rejects_ltype rtol atol ltype check rows cols (data : list (list R)) :
   accepted rows cols = true -> (3 < ltype)%nat ->
-  from_matrix_l rtol atol ltype check B rows cols data = Raises (ValueError E_ltype).
+  from_matrix_l rtol atol ltype check rows cols data = Raises (ValueError E_ltype).
 Proof.
   intros H Hl. unfold from_matrix_l. rewrite H. cbn [negb]. apply Nat.ltb_lt in Hl. rewrite Hl. reflexivity.
 Qed.
 
-Lemma from_matrix_SO3 rtol atol check B (qs : list quatR) :
-  from_matrix_l rtol atol 0 check B 3 3 (map (fun q => m3_l (SO3_matrix q)) qs) =
+Lemma from_matrix_SO3 rtol atol check (qs : list quatR) :
+  from_matrix_l rtol atol 0 check 3 3 (map (fun q => m3_l (SO3_matrix q)) qs) =
   lmap q_l (mat2SO3 rtol atol check (map (fun q => Some (SO3_matrix q)) qs)).
 Proof.
   unfold from_matrix_l, mat2X_l. cbn [accepted Nat.eqb andb orb negb Nat.ltb Nat.leb].
@@ -716,8 +737,8 @@ Proof.
     by (rewrite map_map; apply map_ext; intros; apply parse_m3).
   rewrite E, map_map. reflexivity.
 Qed.
-Lemma from_matrix_SE3 rtol atol check B l (Xs : list se3R) :
-  from_matrix_l rtol atol 1 check B (lay_rows l) (lay_cols l) (map (fun X => lay_l l (matrix4 SE3_act4 X)) Xs) =
+Lemma from_matrix_SE3 rtol atol check l (Xs : list se3R) :
+  from_matrix_l rtol atol 1 check (lay_rows l) (lay_cols l) (map (fun X => lay_l l (matrix4 SE3_act4 X)) Xs) =
   lmap SE3_l (mat2SE3 rtol atol check (map (fun X => lay_in l (matrix4 SE3_act4 X)) Xs)).
 Proof.
   unfold from_matrix_l, mat2X_l. rewrite accepted_lay. cbn [negb Nat.ltb Nat.leb].
@@ -726,9 +747,9 @@ Proof.
     by (rewrite map_map; apply map_ext; intros; apply parse_lay).
   rewrite E. reflexivity.
 Qed.
-Lemma from_matrix_RxSO3 rtol atol check B l (Xs : list rxso3R) :
-  from_matrix_l rtol atol 2 check B (lay_rows l) (lay_cols l) (map (fun X => lay_l l (matrix4 RxSO3_act4 X)) Xs) =
-  lmap RxSO3_l (mat2RxSO3 rtol atol check B (map (fun X => lay_in l (matrix4 RxSO3_act4 X)) Xs)).
+Lemma from_matrix_RxSO3 rtol atol check l (Xs : list rxso3R) :
+  from_matrix_l rtol atol 2 check (lay_rows l) (lay_cols l) (map (fun X => lay_l l (matrix4 RxSO3_act4 X)) Xs) =
+  lmap RxSO3_l (mat2RxSO3 rtol atol check (map (fun X => lay_in l (matrix4 RxSO3_act4 X)) Xs)).
 Proof.
   unfold from_matrix_l, mat2X_l. rewrite accepted_lay. cbn [negb Nat.ltb Nat.leb].
   assert (E : map (parse_in (lay_rows l) (lay_cols l)) (map (fun X => lay_l l (matrix4 RxSO3_act4 X)) Xs) =
@@ -736,9 +757,9 @@ Proof.
     by (rewrite map_map; apply map_ext; intros; apply parse_lay).
   rewrite E. reflexivity.
 Qed.
-Lemma from_matrix_Sim3 rtol atol check B l (Xs : list sim3R) :
-  from_matrix_l rtol atol 3 check B (lay_rows l) (lay_cols l) (map (fun X => lay_l l (matrix4 Sim3_act4 X)) Xs) =
-  lmap Sim3_l (mat2Sim3 rtol atol check B (map (fun X => lay_in l (matrix4 Sim3_act4 X)) Xs)).
+Lemma from_matrix_Sim3 rtol atol check l (Xs : list sim3R) :
+  from_matrix_l rtol atol 3 check (lay_rows l) (lay_cols l) (map (fun X => lay_l l (matrix4 Sim3_act4 X)) Xs) =
+  lmap Sim3_l (mat2Sim3 rtol atol check (map (fun X => lay_in l (matrix4 Sim3_act4 X)) Xs)).
 Proof.
   unfold from_matrix_l, mat2X_l. rewrite accepted_lay. cbn [negb Nat.ltb Nat.leb].
   assert (E : map (parse_in (lay_rows l) (lay_cols l)) (map (fun X => lay_l l (matrix4 Sim3_act4 X)) Xs) =
@@ -864,29 +885,29 @@ Proof.
   - rewrite mat2SO3_nocheck. cbn [map so3_item obindo]. now rewrite Hq.
 Qed.
 
-Lemma from_matrix_is_mat2X rtol atol ltype check B rows cols (data : list (list R)) :
-  (ltype <= 3)%nat -> from_matrix_l rtol atol ltype check B rows cols data = mat2X_l rtol atol ltype check B rows cols data.
+Lemma from_matrix_is_mat2X rtol atol ltype check rows cols (data : list (list R)) :
+  (ltype <= 3)%nat -> from_matrix_l rtol atol ltype check rows cols data = mat2X_l rtol atol ltype check rows cols data.
 Proof.
   intros Hl. unfold from_matrix_l, mat2X_l. destruct (accepted rows cols); cbn [negb]; [|reflexivity].
   assert (E : Nat.ltb 3 ltype = false) by (apply Nat.ltb_ge; exact Hl). now rewrite E.
 Qed.
 
 Section EvalItem.
-Variables (rtol atol : R) (check : bool) (B : list nat) (rows cols : nat) (data : list R) (k : nat).
+Variables (rtol atol : R) (check : bool) (rows cols : nat) (data : list R) (k : nat).
 Hypothesis Hacc : accepted rows cols = true.
 Let m := parse_in rows cols data.
 Let M := in_rot m.
 
 Lemma eval_item_SO3 :
   (check = true -> within10 rtol atol M) -> core_branch atol k (mtrans M) ->
-  outcome_item (mat2X_l rtol atol 0 check B rows cols [data]) 0 = q_l (core_value k (mtrans M)).
+  outcome_item (mat2X_l rtol atol 0 check rows cols [data]) 0 = q_l (core_value k (mtrans M)).
 Proof.
   intros Hc Hb. unfold mat2X_l. rewrite Hacc. cbn [negb map].
   fold m. fold M. rewrite (mat2SO3_single _ _ _ _ _ Hc (core_eval _ _ _ Hb)). reflexivity.
 Qed.
 Lemma eval_item_SE3 :
   (check = true -> within10 rtol atol M) -> core_branch atol k (mtrans M) ->
-  outcome_item (mat2X_l rtol atol 1 check B rows cols [data]) 0 = SE3_l (in_trans m, core_value k (mtrans M)).
+  outcome_item (mat2X_l rtol atol 1 check rows cols [data]) 0 = SE3_l (in_trans m, core_value k (mtrans M)).
 Proof.
   intros Hc Hb. unfold mat2X_l. rewrite Hacc. cbn [negb map]. unfold mat2SE3. cbn [map].
   fold m. fold M. rewrite (mat2SO3_single _ _ _ _ _ Hc (core_eval _ _ _ Hb)). reflexivity.
@@ -896,7 +917,6 @@ Qed.
 Variable s : R.
 Hypothesis Hdet : 0 < mdet3 M.
 Hypothesis Hs : s = exp (ln (mdet3 M) / 3).
-Hypothesis HB : broadcastable (B ++ [1%nat]) B = true.
 Hypothesis Hrank : atol + rtol * Rabs 0 < Rabs (s - 0).
 Let N := mmap3 (fun e => e / s) M.
 
@@ -914,14 +934,14 @@ Proof.
   unfold div_item. rewrite sc_item_pos. unfold mdiv3. cbv [eqb zero NumR].
   destruct (Reqb s 0) eqn:E; [apply Reqb_true in E; now apply s_nonzero in E | reflexivity].
 Qed.
-Lemma scale_stage_single : scale_stage rtol atol B [m] = Value [Some s].
+Lemma scale_stage_single : scale_stage rtol atol [m] = Value [Some s].
 Proof.
-  rewrite scale_stage_pass; [cbn [map]; now rewrite sc_item_pos | exact HB |].
+  rewrite scale_stage_pass; [cbn [map]; now rewrite sc_item_pos |].
   exists m. split; [now left|]. rewrite sc_item_pos. unfold rank_small, lift. apply close_false. unfold closeP. lra.
 Qed.
 Lemma eval_item_RxSO3 :
   (check = true -> within10 rtol atol N) -> core_branch atol k (mtrans N) ->
-  outcome_item (mat2X_l rtol atol 2 check B rows cols [data]) 0 = RxSO3_l (core_value k (mtrans N), s).
+  outcome_item (mat2X_l rtol atol 2 check rows cols [data]) 0 = RxSO3_l (core_value k (mtrans N), s).
 Proof.
   intros Hc Hb. unfold mat2X_l. rewrite Hacc. cbn [negb map]. fold m. unfold mat2RxSO3.
   rewrite scale_stage_single. cbn [obind combine map fst snd]. fold M.
@@ -931,7 +951,7 @@ Proof.
 Qed.
 Lemma eval_item_Sim3 :
   (check = true -> within10 rtol atol N) -> core_branch atol k (mtrans N) ->
-  outcome_item (mat2X_l rtol atol 3 check B rows cols [data]) 0 = Sim3_l (in_trans m, (core_value k (mtrans N), s)).
+  outcome_item (mat2X_l rtol atol 3 check rows cols [data]) 0 = Sim3_l (in_trans m, (core_value k (mtrans N), s)).
 Proof.
   intros Hc Hb. unfold mat2X_l. rewrite Hacc. cbn [negb map]. fold m. unfold mat2Sim3.
   rewrite scale_stage_single. cbn [obind combine map fst snd]. fold M.
@@ -941,19 +961,10 @@ Proof.
 Qed.
 End EvalItem.
 
-(* raise codes that depend on the shapes only *)
-Lemma code_shape_Sim3 rtol atol check B rows cols (data : list (list R)) :
-  accepted rows cols = true -> broadcastable (B ++ [1%nat]) B = false ->
-  outcome_code (mat2X_l rtol atol 3 check B rows cols data) = 100%nat /\
-  outcome_code (mat2X_l rtol atol 2 check B rows cols data) = 100%nat.
-Proof.
-  intros Ha Hb. unfold mat2X_l. rewrite Ha. cbn [negb]. rewrite mat2Sim3_shape, mat2RxSO3_shape by assumption.
-  split; reflexivity.
-Qed.
 (* with check=True the scaled variants raise exactly like mat2SO3 on the blocks divided by the scale *)
-Lemma mat2Sim3_check_raises rtol atol B Ms ss :
-  scale_stage rtol atol B Ms = Value ss ->
-  ((exists e, mat2Sim3 rtol atol true B Ms = Raises e) <->
+Lemma mat2Sim3_check_raises rtol atol Ms ss :
+  scale_stage rtol atol Ms = Value ss ->
+  ((exists e, mat2Sim3 rtol atol true Ms = Raises e) <->
    exists M, In M (map (fun ms => mdiv3 (in_rot (fst ms)) (snd ms)) (combine Ms ss)) /\ ~ item_within rtol atol M).
 Proof.
   intros Hs. unfold mat2Sim3. rewrite Hs. cbn [obind]. rewrite <- mat2SO3_check_raises.
@@ -962,32 +973,31 @@ Qed.
 
 (* raise codes of the scaled variants on a one-item batch (rank test, negative determinant, check) *)
 Section EvalCode.
-Variables (rtol atol : R) (check : bool) (B : list nat) (rows cols : nat) (data : list R) (g : nat).
+Variables (rtol atol : R) (check : bool) (rows cols : nat) (data : list R) (g : nat).
 Hypothesis Hacc : accepted rows cols = true.
-Hypothesis HB : broadcastable (B ++ [1%nat]) B = true.
 Hypothesis Hg : g = 2%nat \/ g = 3%nat.
 Let m := parse_in rows cols data.
 Let M := in_rot m.
 
 Lemma code_of_stage e :
-  scale_stage rtol atol B [m] = Raises e -> outcome_code (mat2X_l rtol atol g check B rows cols [data]) = outcome_code (@Raises unit e).
+  scale_stage rtol atol [m] = Raises e -> outcome_code (mat2X_l rtol atol g check rows cols [data]) = outcome_code (@Raises unit e).
 Proof.
   intros Hs. unfold mat2X_l. rewrite Hacc. cbn [negb map]. fold m.
   destruct Hg as [-> | ->]; [unfold mat2RxSO3 | unfold mat2Sim3]; rewrite Hs; reflexivity.
 Qed.
 (* all scales within the tolerance of zero: "Rotation matrix not full rank" *)
 Lemma code_rank_small s : 0 < mdet3 M -> s = exp (ln (mdet3 M) / 3) -> Rabs (s - 0) <= atol + rtol * Rabs 0 ->
-  outcome_code (mat2X_l rtol atol g check B rows cols [data]) = 4%nat.
+  outcome_code (mat2X_l rtol atol g check rows cols [data]) = 4%nat.
 Proof.
   intros Hd Hs Hc. rewrite (code_of_stage (ValueError E_rank)); [reflexivity|].
-  apply scale_stage_allsmall; [exact HB|]. intros m' [<-|[]].
+  apply scale_stage_allsmall; [discriminate|]. intros m' [<-|[]].
   unfold m. rewrite (sc_item_pos rows cols data s Hd Hs). unfold rank_small, lift. apply close_true. exact Hc.
 Qed.
 Lemma code_rank_singular : mdet3 M = 0 -> 0 <= atol ->
-  outcome_code (mat2X_l rtol atol g check B rows cols [data]) = 4%nat.
+  outcome_code (mat2X_l rtol atol g check rows cols [data]) = 4%nat.
 Proof.
   intros Hd Ha. rewrite (code_of_stage (ValueError E_rank)); [reflexivity|].
-  apply scale_stage_allsmall; [exact HB|]. intros m' [<-|[]].
+  apply scale_stage_allsmall; [discriminate|]. intros m' [<-|[]].
   unfold sc_item, cbrt. change (in_rot m) with M. rewrite Hd. cbv [ltb zero NumR].
   destruct (Rltb 0 0) eqn:E; [apply Rltb_true in E; lra|]. unfold rank_small, lift.
   apply close_true. unfold closeP. replace (0 - 0) with 0 by ring. rewrite Rabs_R0. lra.
@@ -1000,11 +1010,11 @@ Proof.
   destruct (Rltb (mdet3 M) 0) eqn:E2; [reflexivity | apply Rltb_false in E2; exfalso; exact (Rlt_not_le _ _ Hd E2)].
 Qed.
 Lemma code_negdet : mdet3 M < 0 ->
-  outcome_code (mat2X_l rtol atol g check B rows cols [data]) = if check then 2%nat else 0%nat.
+  outcome_code (mat2X_l rtol atol g check rows cols [data]) = if check then 2%nat else 0%nat.
 Proof.
   intros Hd. pose proof (sc_item_neg Hd) as Hn.
-  assert (Hst : scale_stage rtol atol B [m] = Value [None]).
-  { rewrite scale_stage_pass; [cbn [map]; now rewrite Hn | exact HB |].
+  assert (Hst : scale_stage rtol atol [m] = Value [None]).
+  { rewrite scale_stage_pass; [cbn [map]; now rewrite Hn |].
     exists m. split; [now left | rewrite Hn; reflexivity]. }
   unfold mat2X_l. rewrite Hacc. cbn [negb map]. fold m.
   destruct Hg as [-> | ->]; [unfold mat2RxSO3 | unfold mat2Sim3]; rewrite Hst; cbn [obind combine map fst snd mdiv3];
@@ -1016,10 +1026,10 @@ Lemma code_not_orth s i j : 0 < mdet3 M -> s = exp (ln (mdet3 M) / 3) -> atol + 
   check = true -> (i < 3)%nat -> (j < 3)%nat ->
   let N := mmap3 (fun e => e / s) M in
   atol + rtol * Rabs (delta i j) < Rabs (e3 (mmul3 N (mtrans N)) i j - delta i j) ->
-  outcome_code (mat2X_l rtol atol g check B rows cols [data]) = 2%nat.
+  outcome_code (mat2X_l rtol atol g check rows cols [data]) = 2%nat.
 Proof.
   intros Hd Hs Hr Hc Hi Hj N Hbad.
-  pose proof (scale_stage_single rtol atol B rows cols data s Hd Hs HB Hr) as Hst.
+  pose proof (scale_stage_single rtol atol rows cols data s Hd Hs Hr) as Hst.
   pose proof (div_item_pos rows cols data s Hd Hs) as D. unfold div_item in D.
   rewrite (sc_item_pos rows cols data s Hd Hs) in D.
   assert (Ho : orth_ok rtol atol N = false).
